@@ -217,6 +217,54 @@ def check(ctx):
             if common.dec_pos(o) != got:
                 C.issue('pairwise-mismatch', 'correspondence', rp, model=o, real=got)
             C.case(key=('p', n), nontrivial=n >= 2, kind='pairwise')
+        # … of any values (None, zeros, empty strings / tuples, booleans are values like others) and of any iterable
+        odd = [None, 0, '', (), False, 0.0, [], 'x', -1, float('nan')]
+        for k in range(40 if ctx['tier'] == 'quick' else 400):
+            n = C.rng.randint(0, 9)
+            vals = [C.rng.choice(odd) for _ in range(n)]
+            for src, make in (('list', lambda: list(vals)), ('generator', lambda: (v for v in vals)), ('tuple', lambda: tuple(vals))):
+                got = [list(p) for p in g.pairwise(make())]
+                flat = [x for p in got for x in p]
+                same = len(flat) == len(vals) and all((a is b) or (a == b) for a, b in zip(flat, vals))
+                if not same or any(len(p) != 2 for p in got[:-1]) or (got and len(got[-1]) != (2 if n % 2 == 0 else 1)):
+                    C.issue('pairwise-not-consecutive-disjoint-pairs', 'oracle', dict(how='pairwise-odd', values=[repr(v) for v in vals], source=src), got=repr(got)[:200])
+                    break
+            C.case(key=('p-odd', tuple(repr(v) for v in vals)), nontrivial=n >= 2, kind='pairwise-any-values')
+        # tournament over integer-valued fitness beyond 2**53 (exact as integers, not as doubles): the winner of a round is the
+        # first holder of the smallest value drawn, compared exactly
+        for k in range(20 if ctx['tier'] == 'quick' else 200):
+            m_ = C.rng.randint(2, 7)
+            base_ = 2 ** 53 + C.rng.randrange(1 << 20) * 2
+            fit = [base_ + d_ for d_ in C.rng.sample(range(0, 12), m_)]
+            if k % 2:
+                fit = np.array(fit, dtype=np.int64)
+            nsel = C.rng.randint(1, 5)
+            seed = C.rng.randrange(1 << 30)
+            drawn = []
+            orig = np.random.choice
+
+            def tap2(aa, *args, **kw):
+                v = orig(aa, *args, **kw)
+                drawn.append(int(v))
+                return v
+            np.random.seed(seed)
+            np.random.choice = tap2
+            try:
+                sel = g.tournament_selection(fit, nsel)
+            finally:
+                np.random.choice = orig
+            ts = L['c'].TOURNAMENT_SIZE
+            fl = [int(x) for x in fit]
+            rp = dict(how='tournament-bigint', fitness=[str(x) for x in fl], n=nsel, seed=seed, array=bool(k % 2))
+            rounds = [drawn[i * ts:(i + 1) * ts] for i in range(nsel)]
+            if len(sel) != nsel or len(drawn) != nsel * ts or any(x not in fl for x in drawn):
+                C.issue('tournament-length', 'oracle', rp, selected=len(sel), draws=len(drawn))
+            else:
+                for s_, rd in zip(sel, rounds):
+                    if not (0 <= int(s_) < len(fl)) or fl[int(s_)] != min(rd) or any(fl[j] == fl[int(s_)] for j in range(int(s_))):
+                        C.issue('tournament-not-first-holder-of-round-minimum', 'oracle', rp, selected=[int(x) for x in sel], rounds=[[str(x) for x in rd] for rd in rounds])
+                        break
+            C.case(key=('t-bigint', seed), nontrivial=True, kind='tournament-bigint')
     finally:
         drv.close()
     return C.result()
